@@ -503,6 +503,27 @@ class Rank:
         fiber.setOwner(None)
         return fiber
 
+    def remove(self, fiber):
+        """
+        Remove the given fiber (matched by identity) from the rank
+
+        Parameters
+        ----------
+
+        fiber: Fiber
+            The fiber to remove
+
+        Returns
+        _______
+
+        None
+        """
+        for i, f in enumerate(self.fibers):
+            if f is fiber:
+                del self.fibers[i]
+                fiber.setOwner(None)
+                return
+
 #
 # Linked list methods
 #
